@@ -38,7 +38,13 @@ func init() {
 	}
 	f, err := os.OpenFile(logPath, os.O_WRONLY|os.O_APPEND|os.O_CREATE, 0666)
 	if err == nil {
-		fmt.Fprintf(f, "pid=%d ppid=%d marker=%q upload=%q\n", os.Getpid(), os.Getppid(), os.Getenv(telemetryChildVar), os.Getenv(telemetryUploadVar))
+		kind := "pid"
+		if filepath.Base(os.Args[0]) == "go" {
+			// this binary stands in for the go command the uploading sidecar runs (found first on PATH): a
+			// descendant of a telemetry child that is itself instrumented (it calls Start below like any program)
+			kind = "gopid"
+		}
+		fmt.Fprintf(f, "%s=%d ppid=%d marker=%q upload=%q\n", kind, os.Getpid(), os.Getppid(), os.Getenv(telemetryChildVar), os.Getenv(telemetryUploadVar))
 		f.Close()
 	}
 	if os.Getenv("VERIF_C16_ROLE") != "start" {
@@ -129,6 +135,7 @@ type c16Proc struct {
 	pid, ppid int
 	marker    string
 	upload    string
+	isGo      bool // the stand-in for the go command, run by the uploading sidecar
 }
 
 func c16ReadLog(path string) (out []c16Proc, spawned []int) {
@@ -136,6 +143,10 @@ func c16ReadLog(path string) (out []c16Proc, spawned []int) {
 	for _, l := range strings.Split(string(data), "\n") {
 		var p c16Proc
 		if n, _ := fmt.Sscanf(l, "pid=%d ppid=%d marker=%q upload=%q", &p.pid, &p.ppid, &p.marker, &p.upload); n == 4 {
+			out = append(out, p)
+		}
+		if n, _ := fmt.Sscanf(l, "gopid=%d ppid=%d marker=%q upload=%q", &p.pid, &p.ppid, &p.marker, &p.upload); n == 4 {
+			p.isGo = true
 			out = append(out, p)
 		}
 		var pid, by int
@@ -162,6 +173,8 @@ func c16Alive(pid int) bool {
 }
 
 var c16Seq int
+
+func vstatsLabelGo() { vstats.Label("sidecarRanGoCommand") }
 
 type c16Fataler interface {
 	Fatalf(format string, args ...any)
@@ -217,6 +230,15 @@ func c16RunRow(t c16Fataler, base, exe string, r c16Row) {
 		}
 	}
 	env = append(env, "VERIF_C16_LOG="+logPath, "VERIF_C16_ROLE=start", "VERIF_C16_CFG="+string(cfgJSON))
+	// a stand-in for the go command, first on PATH: this binary under the name "go"
+	bin := filepath.Join(root, "bin")
+	os.MkdirAll(bin, 0777)
+	os.Symlink(exe, filepath.Join(bin, "go"))
+	for i, e := range env {
+		if strings.HasPrefix(e, "PATH=") {
+			env[i] = "PATH=" + bin + string(os.PathListSeparator) + strings.TrimPrefix(e, "PATH=")
+		}
+	}
 	switch r.Marker {
 	case "1", "2":
 		env = append(env, telemetryChildVar+"="+r.Marker)
@@ -279,6 +301,24 @@ func c16RunRow(t c16Fataler, base, exe string, r c16Row) {
 		t.Fatalf("harness: row {%s}: the started process left no log line", r)
 	}
 	launch, uploadFlag := c16Model(r)
+	// the stand-in go command is a descendant of a telemetry child: it must see the marker (so that its own
+	// Start does nothing); it is not one of the telemetry children counted below
+	var plain []c16Proc
+	for _, p := range procs {
+		if p.isGo {
+			if p.marker == "" {
+				t.Fatalf("row {%s}: the go command run by the sidecar (pid %d) started without the telemetry-child marker: as an instrumented program it launches a sidecar of its own (log %+v)", r, p.pid, procs)
+			}
+			vstatsLabelGo()
+			continue
+		}
+		plain = append(plain, p)
+	}
+	if os.Getenv("VERIF_C16_DEBUG") != "" && launch && uploadFlag && r.Mode == "on" && len(plain) == len(procs) {
+		data, _ := os.ReadFile(logPath)
+		t.Fatalf("DEBUG row {%s}: no go stand-in seen; log:\n%s", r, data)
+	}
+	procs = plain
 	top := procs[0]
 	children := procs[1:]
 	for _, p := range procs {
